@@ -6,11 +6,23 @@
 //! Witnesses printed for the model: `(ok LOWER UPPER)` after a successful `SplitPopulationByObjectiveValue` (the order
 //! of equal objective values is the sort's business), `(panic H)` after a panic inside a component (`H` = stack height
 //! afterwards; whether the component had already popped is not promised anywhere).
+//!
+//! Programs: besides plain operations an element of `(ops …)` may be `(fail)` (a step returning `Err`), `(failing OP)`
+//! (performs `OP`, then returns `Err`), `(try ITEM)` (the caller looks at the result and carries on) or a scope
+//! `(cl ITEM*)` (`State::with_inner_state` closure chaining its steps with `?`), `(sc ITEM*)` (`Scope::new` executed as a
+//! component), `(cf ITEM*)` (`ConfigurationBuilder::scope_` + `Configuration::run`), `(if ITEM*)` / `(mf ITEM*)`
+//! (`Scope::new_with` with a failing `state_init` / `states_merge`). `RotatePopulations` on too low a stack is a real
+//! component that returns `Err`. Inside a scope the first failing step ends the body; the top level carries on after
+//! every result. One output per program node in program order: `skip` = never reached, `failed`, `sok` / `serr` /
+//! `spanic` for a scope. A final read of the stack that panics is printed as `(stack panic)`.
 use hcommon::problems::TagProblem;
 use hcommon::*;
 use mahf::components::utils::populations::*;
 use mahf::state::common::Populations;
-use mahf::{Component, Individual, State};
+use mahf::components::Scope;
+use mahf::{Component, Configuration, ExecResult, Individual, State};
+use serde::Serialize;
+use std::sync::{Arc, Mutex};
 
 type P = TagProblem;
 
@@ -69,6 +81,7 @@ fn exec_op(state: &mut State<P>, op: &Sx) -> String {
     let problem = TagProblem;
     let arg = |i: usize| a[i].nat().unwrap() as usize;
     let r: Option<String> = match name {
+        "in" => Some(scoped(state, a[0].nat().unwrap(), &a[1])),
         "push" => catch(|| { state.populations_mut().push(mk(&a[0])); "ok".to_string() }),
         "pop" => catch(|| pop_s(&state.populations_mut().pop())),
         "trypop" => catch(|| state.populations_mut().try_pop().map(|p| pop_s(&p)).unwrap_or("none".into())),
@@ -95,13 +108,13 @@ fn exec_op(state: &mut State<P>, op: &Sx) -> String {
                 Err(_) => "(e exec)".to_string(),
             });
             Some(match r {
-                None => format!("(panic {})", state.populations().len()),
-                Some(s) if s == "ok" && name == "c-split" => {
+                None => catch(|| state.populations().len()).map(|h| format!("(panic {h})")).unwrap_or("panic".into()),
+                Some(s) if s == "ok" && name == "c-split" => catch(|| {
                     let pops = state.populations();
                     let l = pops.try_peek(0).map(pop_s).unwrap_or("none".into());
                     let u = pops.try_peek(1).map(pop_s).unwrap_or("none".into());
                     format!("(ok {l} {u})")
-                }
+                }).unwrap_or("panic".into()),
                 Some(s) => s,
             })
         }
@@ -119,18 +132,105 @@ fn scoped(state: &mut State<P>, k: u64, op: &Sx) -> String {
     out
 }
 
+// ---------------------------------------------------------------- programs with scopes and failing steps
+
+/// A program node; the number is its position in program order (= index of its output).
+enum Node {
+    Op(usize, Sx),
+    Fail(usize),
+    Failing(usize, Sx),
+    Try(Box<Node>),
+    Scope(usize, String, Arc<Vec<Node>>),
+}
+const KINDS: [&str; 5] = ["cl", "sc", "cf", "if", "mf"];
+
+fn parse_node(x: &Sx, next: &mut usize) -> Node {
+    let mut id = || { *next += 1; *next - 1 };
+    let (name, a) = x.head().unwrap();
+    match name {
+        "fail" => Node::Fail(id()),
+        "failing" => Node::Failing(id(), a[0].clone()),
+        "try" => Node::Try(Box::new(parse_node(&a[0], next))),
+        k if KINDS.contains(&k) => {
+            let me = id();
+            Node::Scope(me, k.to_string(), Arc::new(a.iter().map(|y| parse_node(y, next)).collect()))
+        }
+        _ => Node::Op(id(), x.clone()),
+    }
+}
+
+type Log = Arc<Mutex<Vec<Option<String>>>>;
+fn log_set(log: &Log, id: usize, s: String) {
+    log.lock().unwrap()[id] = Some(s);
+}
+fn step_err() -> eyre::Report {
+    eyre::eyre!("step failed")
+}
+
+/// A program node as a component (so that real `Block`s / `Scope`s / `Configuration`s can be built from programs).
+#[derive(Clone, Serialize)]
+struct NodeComp {
+    idx: usize,
+    #[serde(skip)]
+    body: Arc<Vec<Node>>,
+    #[serde(skip)]
+    log: Log,
+}
+impl Component<P> for NodeComp {
+    fn execute(&self, _: &P, state: &mut State<P>) -> ExecResult<()> {
+        exec_node(state, &self.body[self.idx], &self.log)
+    }
+}
+fn comps(body: &Arc<Vec<Node>>, log: &Log) -> Vec<Box<dyn Component<P>>> {
+    (0..body.len()).map(|idx| Box::new(NodeComp { idx, body: body.clone(), log: log.clone() }) as Box<dyn Component<P>>).collect()
+}
+
+/// Executes the node on the state it is given; `Err` = the step failed (the caller decides what that means).
+fn exec_node(state: &mut State<P>, n: &Node, log: &Log) -> ExecResult<()> {
+    match n {
+        Node::Op(id, sx) => {
+            let o = exec_op(state, sx);
+            let failed = o == "(e exec)";
+            log_set(log, *id, o);
+            if failed { Err(step_err()) } else { Ok(()) }
+        }
+        Node::Fail(id) => { log_set(log, *id, "failed".into()); Err(step_err()) }
+        Node::Failing(id, sx) => { let o = exec_op(state, sx); log_set(log, *id, o); Err(step_err()) }
+        Node::Try(inner) => { let _ = exec_node(state, inner, log); Ok(()) }
+        Node::Scope(id, kind, body) => {
+            let problem = TagProblem;
+            let r: Option<ExecResult<()>> = catch(|| match kind.as_str() {
+                "cl" => state.with_inner_state(|s| { for b in body.iter() { exec_node(s, b, log)?; } Ok(()) }).map(|_| ()),
+                "sc" => Scope::new(comps(body, log)).execute(&problem, state),
+                "cf" => {
+                    let cs = comps(body, log);
+                    let config = Configuration::builder().scope_(|b| cs.into_iter().fold(b, |b, c| b.do_(c))).build();
+                    config.run(&problem, state)
+                }
+                "if" => Scope::new_with(|_| Err(eyre::eyre!("state_init failed")), comps(body, log), |_, _| Ok(())).execute(&problem, state),
+                _ => Scope::new_with(|_| Ok(()), comps(body, log), |_, _| Err(eyre::eyre!("states_merge failed"))).execute(&problem, state),
+            });
+            log_set(log, *id, match &r { None => "spanic", Some(Ok(())) => "sok", Some(Err(_)) => "serr" }.into());
+            match r { Some(Ok(())) => Ok(()), _ => Err(step_err()) }
+        }
+    }
+}
+
 fn run_case(input: &Sx) -> String {
     let (_, ops) = input.head().unwrap();
     let mut state: State<P> = State::new();
     state.insert(Populations::<P>::new());
-    let mut outs = vec![];
-    for op in ops {
-        let (name, a) = op.head().unwrap();
-        outs.push(if name == "in" { scoped(&mut state, a[0].nat().unwrap(), &a[1]) } else { exec_op(&mut state, op) });
-    }
+    let mut n = 0usize;
+    let nodes: Vec<Node> = ops.iter().map(|x| parse_node(x, &mut n)).collect();
+    let log: Log = Arc::new(Mutex::new(vec![None; n]));
+    // the caller of the top level carries on with the same state whatever a step returns
+    for node in &nodes { let _ = exec_node(&mut state, node, &log); }
+    let outs: Vec<String> = log.lock().unwrap().iter().map(|o| o.clone().unwrap_or("skip".into())).collect();
     // final stack, top first, through the public accessors only
-    let pops = state.populations();
-    let stack = (0..pops.len()).map(|d| pop_s(pops.peek(d)));
+    let stack = catch(|| {
+        let pops = state.populations();
+        (0..pops.len()).map(|d| pop_s(pops.peek(d))).collect::<Vec<_>>()
+    }).unwrap_or(vec!["panic".into()]);
     list([tagged("outs", outs), tagged("stack", stack)])
 }
 
@@ -200,6 +300,41 @@ impl Gen {
             99..=102 => "(c-ileave)".into(),
             _ => "(reset)".into(),
         }
+    }
+    /// A random item of a scope body at nesting depth `d` (1 = directly inside a top-level scope).
+    fn item(&mut self, h: &mut i64, d: u64) -> String {
+        match self.rng.below(100) {
+            0..=5 => "(fail)".into(),
+            6..=13 => { let o = self.tracked_op(h); format!("(failing {o})") }
+            14..=19 => format!("(try {})", self.item(h, d)),
+            20..=37 if d < 3 => self.scope(h, d + 1),
+            38..=45 => format!("(c-rot {})", (*h).max(0) as u64 + 1 + self.rng.below(2)),
+            _ => self.tracked_op(h),
+        }
+    }
+    fn tracked_op(&mut self, h: &mut i64) -> String {
+        let o = self.op((*h).max(0) as u64);
+        if o.starts_with("(push") || o.starts_with("(c-split") { *h += 1 }
+        else if o.starts_with("(pop") || o.starts_with("(trypop") || o.starts_with("(c-ileave") { *h = (*h - 1).max(0) }
+        else if o.starts_with("(reset") { *h = 0 }
+        o
+    }
+    /// A scope of a random kind with a random body (height tracking is a heuristic only: failing steps cut bodies short).
+    fn scope(&mut self, h: &mut i64, d: u64) -> String {
+        let kind = match self.rng.below(20) { 0..=6 => "cl", 7..=12 => "sc", 13..=17 => "cf", 18 => "if", _ => "mf" };
+        let n = self.rng.below(6);
+        let body: Vec<String> = (0..n).map(|_| self.item(h, d)).collect();
+        tagged(kind, body)
+    }
+    /// A random program: a top-level history in which about every third element is a scope tree, a failing step or a
+    /// `try`.
+    fn program(&mut self, len: u64) -> Vec<String> {
+        let mut h: i64 = 0;
+        (0..len).map(|_| match self.rng.below(12) {
+            0..=2 => self.scope(&mut h, 1),
+            3 => self.item(&mut h, 0),
+            _ => self.tracked_op(&mut h),
+        }).collect()
     }
     /// A random history; `wrap` puts every operation into 0..=4 nested child scopes.
     fn history(&mut self, len: u64, wrap: bool) -> Vec<String> {
@@ -341,6 +476,70 @@ fn main() {
         let len = g.rng.range(5, if a.thorough { 80 } else { 40 });
         let ops = g.history(len, true);
         emit("scoped", ops);
+    }
+    // 5b. failing steps inside scopes, systematically: depth 1..3, the kinds of scope, 0..2 populations below, steps
+    //     before the failing one, every kind of failing step, skipped steps behind it at every level, then operations
+    //     of the caller on the same state — also a caller that is itself a scope body (`try` around the failing scope).
+    {
+        let mut tag = 700u64;
+        let mut t = || { tag += 1; tag };
+        let after = |t: &mut dyn FnMut() -> u64| -> Vec<String> {
+            vec!["(len)".into(), "(trypeek 0)".into(), format!("(push ({}))", t()), "(peek 1)".into(), "(c-dup)".into(), "(trypop)".into(), "(getcur)".into()]
+        };
+        for d in 1..=3usize {
+            for kinds in [["cl", "cl", "cl"], ["sc", "sc", "sc"], ["cf", "cf", "cf"], ["sc", "cl", "cf"], ["cl", "cf", "sc"]] {
+                for h in 0..=2u64 {
+                    for pre in 0..3 {
+                        for f in 0..9 {
+                            for tried in [false, true] {
+                                if tried && d == 1 { continue; }
+                                let pre_ops: Vec<String> = match pre {
+                                    0 => vec![],
+                                    1 => vec![format!("(push ({} {}))", t(), t())],
+                                    _ => vec![format!("(push ({}))", t()), format!("(rot {})", (h + 1).min(2)), format!("(edit (e-push {}))", t())],
+                                };
+                                let hh = h + (pre > 0) as u64;
+                                let failing = match f {
+                                    0 => "(fail)".to_string(),
+                                    1 => format!("(failing (push ({})))", t()),
+                                    2 => format!("(c-rot {})", hh + 1),
+                                    3 => "(failing (trypop))".to_string(),
+                                    4 => format!("(failing (rot {}))", hh.min(2)),
+                                    5 => format!("(if (push ({})))", t()),
+                                    6 => format!("(mf (push ({})) (c-rot {}))", t(), (hh + 1).min(2)),
+                                    7 => format!("(failing (edit ({})))", t()),
+                                    _ => format!("(c-rot {})", u64::MAX),
+                                };
+                                // innermost body
+                                let mut body: Vec<String> = pre_ops;
+                                body.push(failing);
+                                body.push(format!("(push ({}))", t()));
+                                let mut scope = tagged(kinds[d - 1], body);
+                                for lvl in (0..d - 1).rev() {
+                                    let inner = if tried && lvl == d - 2 { format!("(try {scope})") } else { scope };
+                                    let mut b = vec![format!("(push ({}))", t()), inner];
+                                    if tried && lvl == d - 2 { b.extend(["(len)".to_string(), "(trypeek 0)".to_string(), "(c-rot 1)".to_string()]); }
+                                    b.push("(pop)".into());
+                                    scope = tagged(kinds[lvl], b);
+                                }
+                                let mut ops: Vec<String> = (0..h).map(|_| format!("(push ({} {}))", t(), t())).collect();
+                                ops.push(scope);
+                                ops.extend(after(&mut t));
+                                emit("scope-err", ops);
+                            }
+                        }
+                    }
+                }
+            }
+        }
+    }
+    // 5c. random programs: scopes of every kind nested up to depth 3, failing steps, `try`, callers that carry on
+    let n_prog = if a.thorough { 10000 } else { 2500 };
+    for i in 0..n_prog {
+        g.fl = [Flavour::Plain, Flavour::Mixed, Flavour::Plain][i % 3];
+        let len = g.rng.range(4, if a.thorough { 40 } else { 20 });
+        let ops = g.program(len);
+        emit("scope-rand", ops);
     }
     // 6. split: populations of 0..9 individuals with few distinct objective values, sometimes one not evaluated,
     //    on top of 0..2 other populations; reads afterwards.
